@@ -18,7 +18,7 @@ FAMILY = {
     1: ("import numpy as np\nimport matplotlib.pyplot as plt\n\n"
         "def compute(x, y):\n    \"\"\"Return the scaled sum.\"\"\"\n    total = x + y\n"
         "    return total * 2.5\n\nvalues = [compute(i, i + 1) for i in range(10)]\nprint(values)\n"),
-    2: ("# Title of the section\n\nSome *markdown* text with an ![image](attachment:image.png)\n\n"
+    2: ("# Title of the section \U0001F600\n\nSome *markdown* text with an ![image](attachment:image.png)\n\n"
         "- item one\n- item two\n- item three is a bit longer than the others\n\n"
         "Final paragraph with non-ASCII: \u00e9\u00e8 \u65e5\u672c\u8a9e \u2603."),
     3: ("x = 1\r\ny = 2\r\nz = [x, y, x + y]\r\nfor item in z:\r\n    print(item)\r\n"
